@@ -234,20 +234,11 @@ func c07r1(c *Ctx) {
 						uses["return datum"] = sliceLiteralElem(e, v.Val)
 					}
 				}
-			case *ssa.Call:
-				// the log entry: a module call receiving the protocol name constant and a uint64
-				if sc := v.Call.StaticCallee(); sc != nil && PkgOf(sc) == "builtInFunctions" && len(v.Call.Args) == 4 {
-					if k, ok := v.Call.Args[0].(*ssa.Const); ok {
-						if s, _ := constStringVal(k.Value); s == "ESDTNFTCreate" && isInteger(v.Call.Args[3].Type()) {
-							uses["log topic"] = e.LE(v.Call.Args[3]).String()
-						}
-					}
-				}
 			}
 		}
 	}
-	if _, found := uses["log topic"]; !found {
-		// the log entry built in place or in another helper: the Topics literal carries Bytes(counter) as an element
+	{
+		// the log entry, built in place or in a helper at any depth: the Topics literal carries Bytes(counter) as an element
 		isTopics := func(in ssa.Instruction) (string, bool) {
 			if st, ok := in.(*ssa.Store); ok {
 				if fa, ok := st.Addr.(*ssa.FieldAddr); ok && isFieldOf(fa, "LogEntry", "Topics") {
@@ -465,26 +456,26 @@ func handOverRules(c *Ctx, rule, rule3 string) {
 			}
 			// the message ships token and counter
 			shipped := false
-			for _, b := range g.fn.Blocks {
-				for _, in := range b.Instrs {
-					st, ok := in.(*ssa.Store)
-					if !ok {
-						continue
+			isData := func(in ssa.Instruction) (string, bool) {
+				if st, ok := in.(*ssa.Store); ok {
+					if fa, ok := st.Addr.(*ssa.FieldAddr); ok && isFieldOf(fa, "OutputTransfer", "Data") {
+						return "Data", true
 					}
-					fa, ok := st.Addr.(*ssa.FieldAddr)
-					if !ok || !isFieldOf(fa, "OutputTransfer", "Data") {
-						continue
-					}
-					var hexArgs []string
-					collectHexArgs(ge, st.Val, &hexArgs, 0)
-					construct := "current owner: message carries (token, counter read)"
-					if len(hexArgs) == 2 && hexArgs[0] == rd.token && hexArgs[1] == "Bytes(bigU("+readRes+"))" {
-						shipped = true
-						c.OK(rule, FuncName(g.fn), construct, c.P.InstrPos(st), strings.Join(hexArgs, ", "))
-					} else {
-						c.FailX(Oblig{Rule: rule, Func: FuncName(g.fn), Construct: construct, Pos: c.P.InstrPos(st), Kind: "violation",
-							Detail: "the hand-over message ships (" + strings.Join(hexArgs, ", ") + "), not the token and the counter read from the old holder: the new holder restarts below nonces already issued"})
-					}
+				}
+				return "", false
+			}
+			// the message is built here or in a helper below
+			for _, ms := range c.P.EffectSitesBelow(ge, "otdata", isData) {
+				st := ms.In.(*ssa.Store)
+				var hexArgs []string
+				collectHexArgs(ms.Env, st.Val, &hexArgs, 0)
+				construct := "current owner: message carries (token, counter read)"
+				if len(hexArgs) == 2 && hexArgs[0] == rd.token && hexArgs[1] == "Bytes(bigU("+readRes+"))" {
+					shipped = true
+					c.OK(rule, FuncName(g.fn), construct, c.P.InstrPos(st), strings.Join(hexArgs, ", "))
+				} else {
+					c.FailX(Oblig{Rule: rule, Func: FuncName(g.fn), Construct: construct, Pos: c.P.InstrPos(st), Kind: "violation",
+						Detail: "the hand-over message ships (" + strings.Join(hexArgs, ", ") + "), not the token and the counter read from the old holder: the new holder restarts below nonces already issued"})
 				}
 			}
 			if !shipped {
@@ -708,7 +699,6 @@ func collectHexArgs(e *Env, v ssa.Value, out *[]string, depth int) {
 		}
 	}
 }
-
 
 // c07r4: "single creator": ESDTNFTCreate is cut by the create-role check (and, for quantity > 1, the add-quantity check does
 // not replace it) — C03-R1's obligations for the create function.
